@@ -135,6 +135,7 @@ class Lower:
         return n
 
     def seq(self, stmts):
+        stmts = self.max_form([x for x in stmts if x != ('using',)])       # if (x < E) x = E;   is   x = std::max(x, E);
         out = [self.s(t) for t in self.accumulate_in_size(stmts)]
         out = [t for t in out if t != 'QSkip']
         if not out:
